@@ -150,15 +150,36 @@ def expansion_shapes():
             for order in ("tops-first", "partials-first"):
                 parts = [alt for pool, n in zip(pools, counts) for alt in pool[:n]]
                 yield {"ev": ev, "tops": tops, "parts": parts, "order": order}
+    # lines with equal trees: every line of the file is an amplitude (or an alternative) of its own, whether it
+    # repeats an earlier line verbatim or differs from it only by its couplings
+    for ev, tops, pools in fams:
+        alts = [pool[0] for pool in pools]
+        for same_numbers in (False, True):
+            for order in ("tops-first", "partials-first", "apart"):
+                # the first top line once more (at the end of the top lines)
+                t2 = tops + [tops[0]]
+                yield {"ev": ev, "tops": t2, "parts": alts, "order": order,
+                       "tcoup": list(range(len(tops))) + [0 if same_numbers else 5], "pcoup": [2 + i for i in range(len(alts))]}
+                # the first alternative of the first open name once more, after the other alternatives
+                p2 = alts + [alts[0]]
+                yield {"ev": ev, "tops": tops, "parts": p2, "order": order,
+                       "tcoup": list(range(len(tops))), "pcoup": [2 + i for i in range(len(alts))] + [2 if same_numbers else 6]}
+                # both
+                yield {"ev": ev, "tops": t2, "parts": p2, "order": order,
+                       "tcoup": list(range(len(tops))) + [0 if same_numbers else 5], "pcoup": [2 + i for i in range(len(alts))] + [2 if same_numbers else 6]}
 
 
 def shape_scenario(sh):
     def line(t, j):
         a, b = COUPLINGS[j % len(COUPLINGS)]
         return ["Line", t, ["0", a, "0.1"], ["2", b, "0.2"]]
-    tl = [line(t, j) for j, t in enumerate(sh["tops"])]
-    pl = [line(t, j + 2) for j, t in enumerate(sh["parts"])]
-    body = pl + tl if sh["order"] == "partials-first" else tl + pl
+    tl = [line(t, j) for j, t in zip(sh.get("tcoup") or range(len(sh["tops"])), sh["tops"])]
+    pl = [line(t, j) for j, t in zip(sh.get("pcoup") or range(2, 2 + len(sh["parts"])), sh["parts"])]
+    if sh["order"] == "apart":
+        # repeated lines as far from their first occurrence as possible: last top line first, last partial line first
+        body = tl[-1:] + pl[-1:] + tl[:-1] + pl[:-1]
+    else:
+        body = pl + tl if sh["order"] == "partials-first" else tl + pl
     ast = [["EventType", EVENT_TYPES[sh["ev"]]]] + body
     return {"ast": ast, "crlf": False}
 
